@@ -132,6 +132,7 @@ def main(argv=None):
     ap.add_argument('--no-twins', action='store_true')
     ap.add_argument('--replay', default=None)
     ap.add_argument('--list', action='store_true')
+    ap.add_argument('--first', action='store_true', help='stop scheduling new obligations after the first reproduced counterexample (mutation trials; evidence not written)')
     ap.add_argument('--scale', type=float, default=float(os.environ.get('VSYM_SCALE', '1.0')),
                     help='multiply all budgets (slow machines)')
     a = ap.parse_args(argv)
@@ -225,11 +226,19 @@ def main(argv=None):
             futs[ex.submit(run_worker, prop, o, a.tier, tw, excluded)] = (o, tw)
         for fu in concurrent.futures.as_completed(futs):
             o, tw = futs[fu]
+            if fu.cancelled():
+                results[(o.name, tw)] = dict(verdict='skipped')
+                continue
             try:
                 r = fu.result()
             except Exception as e:  # noqa
                 r = dict(verdict='error', error=repr(e))
             results[(o.name, tw)] = r
+            if a.first and not tw and o.expect == 'confirm' and r.get('verdict') == 'refuted':
+                rr = run_replay(REPLAY_PY, prop, o.name, a.tier, r['args_src'], excluded)
+                if rr.get('holds') is False:
+                    for f2 in futs:
+                        f2.cancel()
             tag = o.name + ('#twin' if tw else '')
             print('  [%s] %-44s %-9s paths=%-5s q=%-6s cpu=%ss' % (
                 prop, tag, r.get('verdict'), r.get('paths', '-'), r.get('solver_queries', '-'), r.get('cpu_s', '-')),
@@ -248,6 +257,8 @@ def main(argv=None):
         tot['solver_s'] += float(r.get('solver_time_s') or 0)
         tot['cpu_s'] += float(r.get('cpu_s') or 0)
         tot['confirmed_paths'] += int(r.get('num_confirmed_paths') or 0)
+        if v == 'skipped':
+            continue
         if tw:
             if v == 'refuted':
                 discharged += 1
@@ -288,6 +299,8 @@ def main(argv=None):
             else:
                 harness_errors.append('counterexample of %s does not reproduce concretely (args: %s; 3.11: %s; 3.12: %s)' % (
                     tag, r.get('args_src'), r1, r2))
+        elif v == 'skipped':
+            pass
         else:
             harness_errors.append('%s inconclusive: %s %s' % (tag, v, r.get('error') or [m.get('message') for m in r.get('messages', [])]))
 
@@ -299,7 +312,7 @@ def main(argv=None):
 
     wall = time.time() - t0
     n_ob = len(jobs)
-    if not a.only:
+    if not a.only and not a.first:
         ev = dict(
             property_id=prop, tier=a.tier, seed=seed, level='model_checking',
             coverage=dict(
